@@ -282,6 +282,33 @@ Example ex_gc_clamped :   (* expected 95 would also resolve the lock of start 90
   option_map snd (gc_full 20 95 50 1 [(([], []), ex_os)] ex_store) = Some 50 /\
   option_map fst (gc_full 20 95 50 1 [(([], []), ex_os)] ex_store) = Some (resolve_all ex_store 50).
 Proof. vm_compute. auto. Qed.
+(* tidb#42937: a leftover pessimistic lock (k1) whose primary FIELD is stale (k9: no such key) next to a secondary
+   prewrite lock (k2) of the same transaction, whose real primary (k3) is committed.  wf_store holds (W3 only forbids a
+   pointer onto a key holding a prewrite lock of that transaction); the pass commits k2 with the primary's commit ts.
+   The scan answer of the model is TYPED (the scanned record carries l_kind): if ScanLock does not report the lock type
+   (ex_untyped: the pessimistic lock looks like a prewrite lock), the stale primary's "rolled back" status goes into
+   txnInfos and the committed transaction's secondary is rolled back -- mocktikv's ScanLock before fix F41. *)
+Definition ex_stale : store :=
+  [ mkRec (ex_k 1) (Some (mkLock 10 (ex_k 9) LPess [])) [];
+    mkRec (ex_k 2) (Some (mkLock 10 (ex_k 3) LPut [2])) [];
+    mkRec (ex_k 3) None [mkWrite 10 15 (Some [3])] ].
+Example ex_stale_wf : wf_store ex_stale.
+Proof. apply wf_storeb_wf. vm_compute. reflexivity. Qed.
+Example ex_stale_gc : exists tr,
+  gc_resolve_range 20 50 4 [] [] [mkOracle ([], []) [] [] (Some ([], []))] ex_stale
+  = GcOk [ mkRec (ex_k 1) None []; mkRec (ex_k 2) None [mkWrite 10 15 (Some [2])]; mkRec (ex_k 3) None [mkWrite 10 15 (Some [3])] ] tr.
+Proof. eexists. vm_compute. reflexivity. Qed.
+Definition ex_untyped (r : krec) : krec :=
+  match k_lock r with
+  | Some l => mkRec (k_key r) (Some (mkLockA (l_start l) (l_primary l) (match l_kind l with LPess => LPut | k => k end) (l_val l)
+                                            (l_async l) (l_min_commit l) (l_secs l))) (k_writes r)
+  | None => r
+  end.
+Example ex_untyped_scan_breaks_outcome :
+  batch_resolve ex_stale [] [] (map ex_untyped (scan ex_stale [] [] 50 4))
+  = [ mkRec (ex_k 1) None []; mkRec (ex_k 2) None []; mkRec (ex_k 3) None [mkWrite 10 15 (Some [3])] ]
+  /\ batch_resolve ex_stale [] [] (map ex_untyped (scan ex_stale [] [] 50 4)) <> resolve_all ex_stale 50.
+Proof. vm_compute. split; [reflexivity|discriminate]. Qed.
 Example ex_partition :
   run_on_range (batch_end_of [[ex_k 3; ex_k 5]; [ex_k 3; ex_k 4; ex_k 5]] 1) 10 (ex_k 2) [] =
   Some [(ex_k 2, ex_k 3); (ex_k 3, ex_k 4); (ex_k 4, ex_k 5); (ex_k 5, [])].
